@@ -26,7 +26,7 @@ pub fn def() -> PropDef {
             "ranges are taken inside the document's namespace (plus the all-zero default identifier as (d,d)); ranges spanning foreign namespaces are not produced by honest peers and are outside the statement",
         ],
         bound: |t| match t {
-            Tier::Quick => json!({"a": "S12<=2 all ordered pairs, default parameters on 3 backends; non-trivial pairs also (1,3),(2,2),(3,4)", "b": "S12<=3 states on memory, S12<=2 on file; 28x28 ranges; prefix removal for 28 prefixes x 3 predicates on S12<=2"}),
+            Tier::Quick => json!({"a": "S12<=2 all ordered pairs, default parameters on 3 backends; non-trivial pairs also (1,3),(2,2),(3,4); large family base<->variant with default parameters", "b": "S12<=3 states on memory, S12<=2 on file; 28x28 ranges; prefix removal for 28 prefixes x 3 predicates on S12<=2"}),
             Tier::Thorough => json!({"a": "S24<=2 all ordered pairs x 4 parameter settings x 3 backends; large family base<->variant", "b": "S16<=3 and large-family states on both backends; 28x28 ranges; prefix removal 28 prefixes x 3 predicates"}),
         },
         run,
@@ -361,7 +361,7 @@ fn run(ctx: &Ctx, report: &mut Report) {
     let quick = ctx.quick();
     // (a)
     let (pair_states, large) = if quick {
-        (states_from_subsets(&universe12(), 2), vec![])
+        (states_from_subsets(&universe12(), 2), large_family())
     } else {
         (states_from_subsets(&universe24(), 2), large_family())
     };
@@ -384,6 +384,9 @@ fn run(ctx: &Ctx, report: &mut Report) {
     if let Some(base) = large.first() {
         for v in &large {
             for cfg in CFGS {
+                if quick && cfg != DEFAULT_CFG {
+                    continue;
+                }
                 for (a, b) in [(base, v), (v, base)] {
                     ordinal += 1;
                     if ctx.mine(ordinal) {
